@@ -17,8 +17,14 @@ EXPLANATION = (
     'in a table with a progress set that every back-edge path executes (iteration caps included); the operator is applied only at '
     '2 sites outside loops (init), 1 site per step of the factorization loop and 1 site under `first attempt` of the '
     'fresh-direction helper, which runs at most once per step => at most 2 + 2(ncv-1)(maxit+1) <= 2 + 2 ncv (maxit+1) '
-    'applications; (D4) divisions by the residual norm are guarded (shared with C07). Does NOT decide NaN-freedom in general, '
-    'the raw-pointer kernels of the QR / Schur / LDLT classes, or undefined behaviour outside these clauses.')
+    'applications; (D4) divisions by the residual norm are guarded (shared with C07); (D10) modular assume / guarantee proof of '
+    'the dense kernels: every member of UpperHessenbergSchur, UpperHessenbergEigen and TridiagEigen is analysed from its '
+    'tabulated precondition (linear inequalities over its index parameters and n); every element access, row / column / segment '
+    '/ block view, plane-rotation index, raw-pointer subscript and 3-row / 3-column window handed to a Householder kernel is '
+    'inside its array; every call establishes the callee\'s precondition; every postcondition (returned deflation index, '
+    'start index of the Francis step) holds at every exit; the assumed extents are the ones the classes resize their arrays to. '
+    'Does NOT decide NaN-freedom in general, the inside of the pointer-walking kernels (Householder appliers incl. the SIMD one, '
+    'UpperHessenbergQR / TridiagQR / DoubleShiftQR::apply_*, BKLDLT internals), or undefined behaviour outside these clauses.')
 ASSUMPTIONS = ['class invariants = negation of the constructor guards (C12 shows they equal the documented ranges)',
                'elements of an index vector returned by the ordering primitive lie in [0, length) (C18: it is a permutation)',
                'the small decompositions of the ncv x ncv matrix H return ncv eigenvalues and ncv x ncv eigenvectors',
@@ -165,6 +171,10 @@ def _sites(fn):
             out.append((x, a[0], 'elem', a[1:]))
         elif x['k'] == 'CXXMemberCallExpr' and x.get('org') == 'E' and x.get('callee') in ('col', 'row', 'head', 'tail', 'leftCols', 'rightCols', 'topRows', 'bottomRows', 'coeff', 'coeffRef'):
             out.append((x, fn.call_object(x), x['callee'], fn.call_args(x)))
+        elif x['k'] == 'ArraySubscriptExpr' and len(x.get('c', [])) == 2:
+            # raw pointer subscript p[i]: a site when the pointer's extent is known (a parameter with a declared extent, or a
+            # local that is the data() of an array and is never re-pointed)
+            out.append((x, fn.nodes[x['c'][0]], 'elem', [fn.nodes[x['c'][1]]]))
     return out
 
 
@@ -328,6 +338,12 @@ def _check_sites(fn, rec, ext_of):
         elif kind in ('head', 'tail') and len(e) == 1:
             nsite += 1
             _prove_idx(fn, z, idxs[0], e[0], False, problems, what)
+        elif kind in ('topRows', 'bottomRows') and len(e) == 2:
+            nsite += 1
+            _prove_idx(fn, z, idxs[0], e[0], False, problems, what)
+        elif kind == 'row' and len(e) == 2:
+            nsite += 1
+            _prove_idx(fn, z, idxs[0], e[0], True, problems, what)
     for x in fn.walk():
         z = rec.get(fn.pos_of(x)) if x['k'] in ('CXXConstructExpr', 'CXXTemporaryObjectExpr', 'CXXMemberCallExpr') else None
         if z is None:
@@ -353,6 +369,86 @@ def _check_sites(fn, rec, ext_of):
                             ok = True
                 if not ok:
                     problems.append('%s: the block may extend past the last of the %s (%s + %s)' % (what, nm, fn.s(o), fn.s(l_)))
+        if x['k'] == 'CXXMemberCallExpr' and x.get('callee') == 'block' and x.get('org') == 'E' and len(fn.call_args(x)) == 2 and len(x.get('targs') or []) >= 2:
+            e = ext_of(fn.call_object(x))
+            a = fn.call_args(x)
+            if e is not None and len(e) == 2:
+                nsite += 1
+                what = fn.s(x)[:60]
+                try:
+                    dims = [int(t) for t in x['targs'][:2]]
+                except ValueError:
+                    dims = None
+                if dims is None:
+                    problems.append('%s: fixed-size block with unknown dimensions' % what)
+                else:
+                    for (o, l_, ee, nm) in ((a[0], dims[0], e[0], 'rows'), (a[1], dims[1], e[1], 'columns')):
+                        if not ranges.nonneg(fn, z, o):
+                            problems.append('%s: cannot prove %s >= 0' % (what, fn.s(o)))
+                        ok = False
+                        for U1 in ranges.upper_forms(fn, o):
+                            tot = dict(U1)
+                            tot[1] = tot.get(1, 0) + l_
+                            if ranges.prove_nonpos(z, ranges.lf_sub(tot, ee)):
+                                ok = True
+                        if not ok:
+                            problems.append('%s: the block may extend past the last of the %s (%s + %d)' % (what, nm, fn.s(o), l_))
+        if x['k'] == 'CXXMemberCallExpr' and x.get('callee') in ('applyOnTheLeft', 'applyOnTheRight') and x.get('org') == 'E' and len(fn.call_args(x)) == 3:
+            # rows (left) / columns (right) p and q of the receiver; the receiver may itself be a view of a known array
+            ob = fn.strip(fn.call_object(x))
+            e = ext_of(ob)
+            lim = None
+            if e is not None and len(e) == 2:
+                lim = e[0] if x['callee'] == 'applyOnTheLeft' else e[1]
+            elif ob is not None and ob['k'] == 'CXXMemberCallExpr' and ob.get('callee') in ('rightCols', 'leftCols', 'topRows', 'bottomRows'):
+                e2 = ext_of(fn.call_object(ob))
+                if e2 is not None and len(e2) == 2:
+                    if x['callee'] == 'applyOnTheLeft' and ob['callee'] in ('rightCols', 'leftCols'):
+                        lim = e2[0]
+                    elif x['callee'] == 'applyOnTheRight' and ob['callee'] in ('topRows', 'bottomRows'):
+                        lim = e2[1]
+                    elif x['callee'] == 'applyOnTheRight' and ob['callee'] == 'leftCols':
+                        lim = ranges.linform(fn, fn.call_args(ob)[0])
+                    elif x['callee'] == 'applyOnTheLeft' and ob['callee'] == 'topRows':
+                        lim = ranges.linform(fn, fn.call_args(ob)[0])
+            if lim is not None:
+                for y in fn.call_args(x)[:2]:
+                    nsite += 1
+                    _prove_idx(fn, z, y, lim, True, problems, fn.s(x)[:50])
+        if x['k'] == 'CXXMemberCallExpr' and x.get('callee') in ('segment', 'head', 'tail') and x.get('org') == 'E':
+            ob = fn.strip(fn.call_object(x))
+            lim = None
+            view = False
+            if ob is not None and ob['k'] == 'CXXMemberCallExpr' and ob.get('callee') in ('row', 'col'):
+                e2 = ext_of(fn.call_object(ob))
+                if e2 is not None and len(e2) == 2:
+                    lim = e2[1] if ob['callee'] == 'row' else e2[0]
+                    view = True
+            else:
+                e1 = ext_of(ob)
+                if e1 is not None and len(e1) == 1 and x['callee'] == 'segment':
+                    lim = e1[0]
+            a = fn.call_args(x)
+            if lim is not None and (x['callee'] == 'segment' or view):
+                nsite += 1
+                what = fn.s(x)[:70]
+                if not hasattr(z, 'facts'):
+                    z = ranges.State(z)
+                ncase = 0
+                for zz, forms in ranges.linform_cases(fn, a, z):
+                    ncase += 1
+                    if any(f is None for f in forms):
+                        problems.append('%s: argument outside the linear / min / max domain' % what)
+                        break
+                    for f, y in zip(forms, a):
+                        if not ranges.prove_nonpos(zz, {k_: -v_ for k_, v_ in f.items()}):
+                            problems.append('%s: cannot prove %s >= 0' % (what, fn.s(y)))
+                    tot = {}
+                    for f in forms:
+                        for k_, v_ in f.items():
+                            tot[k_] = tot.get(k_, 0) + v_
+                    if not ranges.prove_nonpos(zz, ranges.lf_sub(tot, lim)):
+                        problems.append('%s: may run past the end of the %s' % (what, 'row' if ob.get('callee') == 'row' else 'column' if view else 'vector'))
         if x['k'] in ('CXXConstructExpr', 'CXXTemporaryObjectExpr') and x.get('ctor_of') == 'Eigen::Map':
             a = [y for y in fn.call_args(x) if y['k'] != 'CXXDefaultArgExpr']
             if len(a) < 2:
@@ -543,6 +639,67 @@ def double_shift_blocks(ctx, rule='double-shift-block-within-matrix'):
             ok = ok and pushes[0] == ('lit', '0') and pushes[-1] == ('F', 'm_n') and all(p[0] == '+' and p[2] == ('lit', '1') for p in pushes[1:-1])
         ctx.check(ok, rule, 'DoubleShiftQR::compute/blocks', fn.qname,
                   'blocks are [z_i, z_{i+1} - 1] for the increasing deflation points 0 = z_0 < ... < z_len = n' if ok else 'block boundaries are not consecutive deflation points')
+
+
+
+# D10: dense kernels (real Schur, Hessenberg eigenvectors, symmetric tridiagonal QL/QR), assume / guarantee with the zone engine
+def dense_kernel_contracts(ctx, rule='dense-kernel-index-contracts'):
+    from . import contracts
+    SCHUR = contracts.Spec('Spectra::UpperHessenbergSchur', ['0 <= m_n'], {'m_T': ['m_n', 'm_n'], 'm_U': ['m_n', 'm_n']}, {
+        'compute': {},
+        'find_small_subdiag': {'pre': ['0 <= iu', 'iu <= m_n - 1'], 'post': ['0 <= ret', 'ret <= iu']},
+        'split_off_two_rows': {'pre': ['1 <= iu', 'iu <= m_n - 1']},
+        'compute_shift': {'pre': ['2 <= iu', 'iu <= m_n - 1']},
+        'init_francis_qr_step': {'pre': ['0 <= il', 'il <= iu - 2', 'iu <= m_n - 1'], 'post': ['il <= im', 'im <= iu - 2']},
+        'perform_francis_qr_step': {'pre': ['0 <= il', 'il <= im', 'im <= iu - 2', 'iu <= m_n - 1']},
+    }, windows={
+        'apply_householder_left': dict(params=['ess', 'tau', 'x', 'ncol', 'stride'], ptr='x', rows=3, cols='ncol', stride='stride'),
+        'apply_householder_right': dict(params=['ess', 'tau', 'x', 'nrow', 'stride'], ptr='x', rows='nrow', cols=3, stride='stride'),
+        'apply_householder_right_simd': dict(params=['ess', 'tau', 'x', 'nrow', 'stride'], ptr='x', rows='nrow', cols=3, stride='stride'),
+    })
+    EIG = contracts.Spec('Spectra::UpperHessenbergEigen', ['0 <= m_n'], {'m_matT': ['m_n', 'm_n'], 'm_eivec': ['m_n', 'm_n'], 'm_eivalues': ['m_n']}, {
+        'compute': {}, 'doComputeEigenvectors': {}, 'eigenvectors': {}})
+    TRI = contracts.Spec('Spectra::TridiagEigen', ['0 <= m_n'], {'m_main_diag': ['m_n'], 'm_sub_diag': ['m_n - 1'], 'm_evecs': ['m_n', 'm_n']}, {
+        'compute': {},
+        'tridiagonal_qr_step': {'pre': ['0 <= start', 'start <= end - 1', 'end <= n - 1'],
+                                'ptr': {'diag': ['n'], 'subdiag': ['n - 1'], 'matrixQ': ['n', 'n']}}})
+    for spec, floor in ((SCHUR, 90), (EIG, 140), (TRI, 30)):
+        contracts.verify(ctx, spec, _check_sites, rule, min_sites=floor)
+        _extents_established(ctx, spec, rule)
+
+
+def _extents_established(ctx, spec, rule):
+    """The extents the contracts assume are the ones the class gives its arrays: every resize of a declared array uses exactly
+    the declared dimensions, and every declared array is resized (or swapped with a declared array of another checked class)."""
+    SWAPPED = {('Spectra::UpperHessenbergEigen', 'm_matT'): 'swap_T', ('Spectra::UpperHessenbergEigen', 'm_eivec'): 'swap_U'}
+    seen = {}
+    probs = []
+    for fn in ctx.F.concrete():
+        if fn.cls != spec.cls or not fn.cfg:
+            continue
+        for x in fn.walk():
+            if x['k'] == 'CXXMemberCallExpr' and x.get('callee') == 'resize':
+                f = fn.field_name(fn.strip(fn.call_object(x))) if fn.call_object(x) is not None else None
+                if f in spec.extents:
+                    got = [ranges.linform(fn, a) for a in fn.call_args(x)]
+                    from .contracts import _resolve, _lin
+                    want = [_resolve(fn, _lin(t)) for t in spec.extents[f]]
+                    ok = len(got) == len(want) and all(g is not None and w is not None and ranges.lf_sub(g, w) == {1: 0} for g, w in zip(got, want))
+                    seen[f] = seen.get(f, True) and ok
+                    if not ok:
+                        probs.append('%s: `%s` does not give %s the extent %s the index proofs assume' % (fn.name, fn.s(x)[:50], f, spec.extents[f]))
+            if x['k'] == 'CXXMemberCallExpr' and x.get('callee') in ('swap_T', 'swap_U'):
+                a = fn.call_args(x)
+                f = fn.field_name(fn.strip(a[0])) if a else None
+                if SWAPPED.get((spec.cls, f)) == x['callee']:
+                    # the Schur factor it is swapped with is n x n by the Schur class's own resize (checked for that class); both
+                    # classes take n from the same argument in the same call
+                    seen[f] = seen.get(f, True)
+    for f in spec.extents:
+        if f not in seen:
+            probs.append('%s is never sized: the declared extent %s is not established' % (f, spec.extents[f]))
+    ctx.check(not probs, rule, '%s/extents' % spec.cls.replace('Spectra::', ''), spec.cls,
+              'declared extents %s are exactly what the class resizes its arrays to' % {k: v for k, v in spec.extents.items()} if not probs else '; '.join(probs))
 
 
 def _show_lin(fn, lin):
@@ -808,6 +965,11 @@ def application_bound(ctx, rule='operator-application-bound'):
 
 
 def run(ctx):
+    _run(ctx)
+    dense_kernel_contracts(ctx)
+
+
+def _run(ctx):
     # member calls kill only the integer fields their callee may write (interprocedural may-write summaries)
     zone.CALL_MAY_WRITE = lambda fn, call: set(p[0] for p in ctx.E.call_may_write(fn, call) if p)
     index_ranges(ctx)
